@@ -235,7 +235,7 @@ func (pr *Projector) Project(m map[string]any) Proj {
 	}
 	p.Spec = shortHash([]any{specPart(m), userLbl, userAnn})
 	p.Probe = probeClass(m)
-	if u.GetKind() == "ConfigMap" {
+	if u.GetKind() == "ConfigMap" || u.GetKind() == "Secret" {
 		if d, ok := m["data"].(map[string]any); ok && len(d) <= 4 {
 			p.Data = map[string]string{}
 			for k, v := range d {
